@@ -5,3 +5,6 @@ import Iggy.Props.C01
 #print axioms Iggy.Props.C01.dedup_off_all_accepted
 #print axioms Iggy.Props.C01.duplicate_consumes_nothing
 #print axioms Iggy.Props.C01.next_after_purge_drop_restart
+#print axioms Iggy.Props.C01.l1_offsets_consecutive
+#print axioms Iggy.Props.C01.l1_append_refines
+#print axioms Iggy.Props.C01.l1_simulates
